@@ -11,9 +11,9 @@ enum { O_CTX_REG = 1, O_CTX_DEREG, O_FINALIZE, O_DISPATCH, O_QUIT, O_SET_TICK,
        O_ARM, O_READY, O_ADVANCE, O_INJECT, O_RELEASE, O_CTXCALL, O_RAISE, O_TOUCH, O_ENDCHILD, O_MAX };
 static void audit_srclen(int s, const char *when);
 enum { A_NONE, A_STOP, A_DEREG, A_PAUSE, A_START, A_RESUME, A_TELL, A_PUB, A_QUIT, A_SUB, A_UNSUB, A_STASH, A_UNSTASH, A_BECOME, A_UNBECOME,
-       A_RETAIN, A_ERRNO, A_CTXCALL, A_PILL, A_BCAST, A_MAX };
+       A_RETAIN, A_ERRNO, A_CTXCALL, A_PILL, A_BCAST, A_TICK, A_MAX };
 static const char *AN[] = { "none", "stop", "deregister", "pause", "start", "resume", "tell", "publish", "quit", "subscribe", "unsubscribe", "stash", "unstash", "become", "unbecome",
-                            "retain-event", "set-errno", "ctx-call", "poisonpill", "broadcast" };
+                            "retain-event", "set-errno", "ctx-call", "poisonpill", "broadcast", "toggle-tick" };
 static const m_mod_flags MFLAGS[] = { 0, M_MOD_ALLOW_REPLACE, M_MOD_PERSIST, M_MOD_DENY_CTX, M_MOD_DENY_PUB, M_MOD_DENY_SUB, M_MOD_NAME_DUP, M_MOD_NAME_AUTOFREE | M_MOD_USERDATA_AUTOFREE };
 static const char *MFLAGN[] = { "-", "ALLOW_REPLACE", "PERSIST", "DENY_CTX", "DENY_PUB", "DENY_SUB", "NAME_DUP", "NAME_AUTOFREE|USERDATA_AUTOFREE" };
 static const int ERRNOS[] = { EINTR, EAGAIN, ENOENT, EBADF };
@@ -75,6 +75,7 @@ static void run_armed(int s, int kind) {
     case A_BECOME: do_api((op_t){O_BECOME, s, arg}); break;
     case A_UNBECOME: do_api((op_t){O_UNBECOME, s}); break;
     case A_CTXCALL: do_api((op_t){O_CTXCALL, arg}); break;
+    case A_TICK: do_api((op_t){O_SET_TICK, !CX.tick}); break;
     case A_ERRNO: errno = ERRNOS[arg & 3]; break;
     case A_STASH: {          /* stash events of the current invocation: arg 0 first, 1 last, 2 all */
         if (kind != CB_EVT) break;
